@@ -519,7 +519,7 @@ def r6(R):
 
 @rule('C08.R7', 'inside the swap, the pooled read handles are closed under '
       'the writer side before the file is renamed; the data-file handle is '
-      'never left closed', min_instances=2)
+      'never left closed', props=['C07'], min_instances=2)
 def r7(R):
     cls = R.prog.cls(FS)
     f = R.method(cls, 'pack')
